@@ -39,6 +39,7 @@ ATOMS = [
     ("cpp11assert", "+", ["duplicateExpression"], "void f{n}(int a){{ static_assert(sizeof(a) == sizeof(a), \"m\"); (void)a; }}"),  # only with --std=c++03
     ("override", "+", ["missingOverride"], "struct B{n}{{virtual void f(); virtual ~B{n}();}}; struct D{n}:B{n}{{ void f(); }};"),   # not with --std=c++03
     ("manycfg", "c+", ["zerodiv"], "\n".join("#ifdef MC{n}_%d\nint mc{n}_%d(int y){{return y/0;}}\n#endif" % (k, k) for k in range(14))),  # 14 configurations: beyond the default limit of 12 unless --force
+    ("sysinc", "c", ["missingIncludeSystem"], "#include <nothere{n}.h>"),     # information severity
     ("vfiter", "c+", ["zerodiv"], "static int zero{n}(void){{return 0;}} int f{n}(void){{int a=zero{n}(); return 10/a;}}"),   # needs a second valueflow iteration: not with --check-level=reduced
     ("branches", "c+", ["zerodiv"], "int gb{n}(int); int f{n}(int a,int b,int c,int d,int e,int h){{ int x=0; if(a){{gb{n}(1);}} if(b){{gb{n}(2);}} if(c){{gb{n}(3);}} if(d){{gb{n}(4);}} if(e){{gb{n}(5);}} if(h){{gb{n}(6);}} return 10/x; }}"),  # only with --check-level=exhaustive
     # library-evaluated calls (std.cfg <returnValue> expressions, format strings, buffer sizes, containers)
@@ -142,7 +143,7 @@ def wp_material(rng, ctr, units, lang_of):
     if len(units) < 2:
         return decls, per
     kinds = ["null", "uninit", "index", "unused", "used", "nested", "odr", "nested3", "null_var", "index_sz", "ptrarith", "nested4",
-             "samefile_used", "multi_site", "cpp_members", "nested_shift", "nested_shift"]
+             "samefile_used", "multi_site", "cpp_members", "nested_shift", "nested_shift", "cfg_null", "both_lists"]
     for _ in range(rng.randint(1, 4)):
         k = rng.choice(kinds)
         n = ctr.next()
@@ -222,6 +223,17 @@ def wp_material(rng, ctr, units, lang_of):
             if cpp:
                 x = rng.choice(cpp)
                 per[x].append("}\nnamespace ns%d { class W%d { public: int used%d(int q){return q;} int unusedm%d(){return 1;} static int st%d(){return 2;} }; template<class T> T tpl%d(T v){return v;} int call%d(){ W%d w; return w.used%d(1)+tpl%d<int>(3); } }\nextern \"C\" {" % (n, n, n, n, n, n, n, n, n, n))
+        elif k == "cfg_null":
+            # the callee dereferences only in one preprocessor configuration: summaries are written per configuration
+            decls.append("void wpk%d(int*p);" % n)
+            per[a].append("#ifdef CFG_W%d\nvoid wpk%d(int*p){*p=0;}\n#else\nvoid wpk%d(int*p){(void)p;}\n#endif" % (n, n, n))
+            per[b].append("void wpck%d(void){wpk%d(0);}" % (n, n))
+        elif k == "both_lists":
+            # one unit with an unsafe array index *and* unsafe pointer arithmetic on parameters (two lists in one summary element)
+            decls.append("void wpbi%d(int*a); int wpbp%d(const int*p);" % (n, n))
+            per[a].append("void wpbi%d(int*a){a[10]=0;}\nint wpbp%d(const int*p){const int*q=p+20; return *q;}" % (n, n))
+            per[b].append("void wpcb%d(void){int arr[5]; arr[0]=0; wpbi%d(arr);}" % (n, n))
+            per[c].append("int wpcp%d(void){int arr[5]={0}; return wpbp%d(arr);}" % (n, n))
         elif k == "odr":
             cpp = [u for u in units if lang_of[u] == "cpp"]
             if len(cpp) >= 2:
@@ -238,7 +250,7 @@ WEIRD_NAMES = ["sp ace.c", "quo'te.c", "a.b.c", "eq=ual.c", "pl+us.c", "com,ma.c
 
 
 def gen_project(rng, n_units=None, wp=True, inline=0.25, headers=True, weird_names=0.0, big=0.0, cfg_blocks=0.3,
-                atoms=None, same_basename=0.0, lang_mix=True, max_atoms=5, utf8=0.0, hdr_inline=0.0, computed_inc=0.0, corpus=0.0):
+                atoms=None, same_basename=0.0, lang_mix=True, max_atoms=5, utf8=0.0, hdr_inline=0.0, computed_inc=0.0, corpus=0.0, nested_hdr=0.0):
     """Returns dict(tree={path:[chunks]}, units=[paths in command-line order], langs={path:lang})."""
     ctr = Counter()
     nu = n_units or rng.randint(1, 6)
@@ -308,7 +320,13 @@ def gen_project(rng, n_units=None, wp=True, inline=0.25, headers=True, weird_nam
         guard = "#ifndef SHARED_H\n#define SHARED_H"
         ext_c = "#ifdef __cplusplus\nextern \"C\" {\n#endif"
         ext_e = "#ifdef __cplusplus\n}\n#endif"
-        tree["shared.h"] = [guard, ext_c] + decls + [ext_e] + hdr_atoms + ["#endif"]
+        inner = []
+        if nested_hdr and hdr_atoms and rng.chance(nested_hdr):
+            # a header that is only reached through another header
+            inner = [hdr_atoms.pop(rng.below(len(hdr_atoms)))]
+            tree["inner.h"] = ["#ifndef INNER_H\n#define INNER_H"] + inner + ["#endif"]
+        tree["shared.h"] = [guard, ext_c] + decls + [ext_e] + (['#include "inner.h"'] if inner else []) + hdr_atoms + ["#endif"]
+        hdr_atoms = hdr_atoms + inner
     for u in units:
         lang = langs[u]
         chunks = []
@@ -380,7 +398,9 @@ OPTION_POOL = {
     "--inconclusive": ["--inconclusive", ""],
     "--max-configs": ["--max-configs=1", "--max-configs=2", "--force", ""],
     "--check-level": ["--check-level=exhaustive", "--check-level=normal", "--check-level=reduced", ""],
-    "--enable": ["--enable=style", "--enable=warning", "--enable=all", "--enable=performance,portability",
+    "--enable": ["--enable=style", "--enable=warning", "--enable=all", "--enable=performance,portability", "--enable=warning,performance,portability",
+                 "--enable=performance", "--enable=portability", "--enable=information", "--enable=warning,information",
+                 "--enable=unusedFunction", "--enable=style,unusedFunction", "--enable=missingInclude",
                  "--enable=style,warning,performance,portability,information", ""],
     "--suppress": ["--suppress=zerodiv", "--suppress=arrayIndexOutOfBounds", "--suppress=*:shared.h", "--suppress=unreadVariable",
                    "--suppress=zerodiv:u0.c:1", "--suppress=zerodiv:u0.c:2", "--suppress=zerodiv:u0.c:3", "--suppress=zerodiv:u1.c", "--suppress=zero*", ""],
@@ -493,6 +513,13 @@ def gen_edit(rng, tree, units, langs, ctr_start=1000, kinds=None):
             i = rng.choice(idx)
             h[i] = "// cppcheck-suppress %s\n%s" % (rng.choice(["zerodiv", "nullPointer", "unreadVariable"]), h[i])
             return ("header inline suppression added", {"shared.h": h}, units, langs)
+        if k == "inner_header" and "inner.h" in tree:
+            h = list(tree["inner.h"])
+            if rng.chance(0.5):
+                h.insert(len(h) - 1, "static inline int hz%d(int y){return y/0;}" % n)
+            else:
+                h.insert(1, "\n" * rng.choice([1, 5, 256]))
+            return ("inner header edit", {"inner.h": h}, units, langs)
         if k == "header" and "shared.h" in tree:
             h = list(tree["shared.h"])
             if rng.chance(0.5):
